@@ -34,7 +34,7 @@ Dirs == {"up", "down"}
 
 VARIABLES l, wr, rd, flags
 tvars == <<vars, l, wr, rd, flags>>
-segVars == <<csend, up, outQ, down, rcvU, rcvD>>
+segVars == <<csend, up, outQ, down, rcvU, rcvD, ndrop>>
 
 e == TraceLog[l]
 Is(name) == l <= Len(TraceLog) /\ e.ev = name
@@ -52,7 +52,7 @@ TReset ==
   /\ car' = [k \in Carriers |-> "unborn"] /\ owner' = [k \in Carriers |-> None]
   /\ broken' = [k \in Carriers |-> FALSE] /\ att' = [k \in Carriers |-> FALSE]
   /\ cur' = [s \in Sessions |-> 0] /\ dead' = [s \in Sessions |-> FALSE]
-  /\ acc' = [s \in Sessions |-> 0] /\ nf' = 0
+  /\ acc' = [s \in Sessions |-> 0] /\ nf' = 0 /\ ndrop' = 0
   /\ wr' = [s \in Sessions |-> [d \in Dirs |-> 0]] /\ rd' = [s \in Sessions |-> [d \in Dirs |-> 0]]
   /\ flags' = {} /\ UNCHANGED segVars
 
@@ -123,7 +123,7 @@ TPacket ==
   /\ IF owner[e.k] = None THEN UNCHANGED flags ELSE
      /\ att[e.k]
      /\ flags' = flags \cup (IF e.id # owner[e.k] THEN {"packet filed under another ClientID than its carrier presented"} ELSE {})
-                      \cup (IF Owner(e.own) # owner[e.k] THEN {"packet of another session on this carrier"} ELSE {})
+                      \cup (IF e.own # -3 /\ Owner(e.own) # owner[e.k] THEN {"packet of another session on this carrier"} ELSE {})
   /\ UNCHANGED <<vars, wr, rd>>
 
 TAccept ==
